@@ -45,4 +45,51 @@ theorem c18_cek_fresh (P : Prims) (E : Env) (T : KeyTables) (C : EncConsts) (reg
     rw [this] at hc0
     exact hc0
 
+/-- The CEK of a whole `perform_encrypt` call for one recipient of a non-direct algorithm: the FIRST draw of the call
+(position 0 of the call's tape), of `cek_size / 8` octets; the call makes at least two draws (CEK, …, IV). -/
+theorem c18_cek_first_draw (P : Prims) (E : Env) (T : KeyTables) (C : EncConsts) (reg : JweRegistry) (o : EObj) (r : ERecipient)
+    (pt : Bytes) (e : Encrypted) (h : performEncrypt P E T C reg o [r] pt = .ok e)
+    (algv : JVal) (alg : JweAlgRow) (hav : pyGetItemStr (.obj (eHeaders o r)) "alg" = .ok algv)
+    (hga : reg.getAlg algv = .ok alg) (hdir : alg.directMode = false) :
+    ∃ (enc : JweEncRow) (encv : JVal), o.prot.get? "enc" = some encv ∧ reg.getEnc encv = .ok enc ∧
+      P.tokenBytes 0 (enc.cekSize / 8) = .ok e.cek := by
+  simp only [performEncrypt, bind_eq_ok, pure_eq_ok, ofOpt_ok_iff] at h
+  obtain ⟨encv, hencv, enc, henc, ⟨o1, rs1, cek, d1⟩, hpre, iv, hiv, _, _, _, _, ⟨ct, tag⟩, _, rs2, _, rfl⟩ := h
+  have := c18_cek_fresh P E T C reg enc 1 r o o1 {} d1 rs1 cek hpre algv alg hav hga hdir
+  exact ⟨enc, encv, hencv, henc, by simpa using this⟩
+
+/-- **Pairwise distinct CEKs across calls** (key wrapping / key encryption / agreement with wrapping), under the same
+CSPRNG hypothesis as `c18_distinct_ivs`: two calls reading one global tape at different offsets draw different CEKs. -/
+theorem c18_distinct_ceks (P1 P2 : Prims) (E : Env) (T : KeyTables) (C : EncConsts) (reg : JweRegistry)
+    (G : Nat → Nat → Bytes) (a b : Nat)
+    (hP1 : ∀ i n, P1.tokenBytes i n = .ok (G (a + i) n)) (hP2 : ∀ i n, P2.tokenBytes i n = .ok (G (b + i) n))
+    (hG : ∀ i j n, i ≠ j → G i n ≠ G j n) (hlen : ∀ i n, (G i n).length = n)
+    (o1 o2 : EObj) (r1 r2 : ERecipient) (pt1 pt2 : Bytes) (e1 e2 : Encrypted)
+    (h1 : performEncrypt P1 E T C reg o1 [r1] pt1 = .ok e1) (h2 : performEncrypt P2 E T C reg o2 [r2] pt2 = .ok e2)
+    (algv1 algv2 : JVal) (alg1 alg2 : JweAlgRow)
+    (hav1 : pyGetItemStr (.obj (eHeaders o1 r1)) "alg" = .ok algv1) (hga1 : reg.getAlg algv1 = .ok alg1) (hd1 : alg1.directMode = false)
+    (hav2 : pyGetItemStr (.obj (eHeaders o2 r2)) "alg" = .ok algv2) (hga2 : reg.getAlg algv2 = .ok alg2) (hd2 : alg2.directMode = false)
+    (hab : a ≠ b) : e1.cek ≠ e2.cek := by
+  obtain ⟨enc1, _, _, _, hc1⟩ := c18_cek_first_draw P1 E T C reg o1 r1 pt1 e1 h1 algv1 alg1 hav1 hga1 hd1
+  obtain ⟨enc2, _, _, _, hc2⟩ := c18_cek_first_draw P2 E T C reg o2 r2 pt2 e2 h2 algv2 alg2 hav2 hga2 hd2
+  rw [hP1] at hc1; rw [hP2] at hc2
+  simp only [Nat.add_zero, Except.ok.injEq] at hc1 hc2
+  intro heq
+  by_cases hn : enc1.cekSize / 8 = enc2.cekSize / 8
+  · rw [← hc1, ← hc2, hn] at heq
+    exact hG a b _ hab heq
+  · have := congrArg List.length heq
+    rw [← hc1, ← hc2, hlen, hlen] at this
+    exact hn this
+
+/-- The PBES2 salt input, when the caller did not supply `p2s`, is a fresh draw of `saltLen` octets at the position after
+the draws made so far (and is then recorded in the header). -/
+theorem c18_salt_fresh (P : Prims) (n : Nat) (o o1 : EObj) (r r1 : ERecipient) (d d1 : Draws) (p2s : Bytes)
+    (hnone : (eHeaders o r).get? "p2s" = none) (h : pbes2Salt P n o r d = .ok (p2s, o1, r1, d1)) :
+    P.tokenBytes d.tokens.length n = .ok p2s ∧ d1 = d.next n := by
+  unfold pbes2Salt at h
+  simp only [hnone, bind_eq_ok, pure_eq_ok, Prod.mk.injEq] at h
+  obtain ⟨s, hs, rfl, _, _, rfl⟩ := h
+  exact ⟨hs, rfl⟩
+
 end Jose.C18
